@@ -29,11 +29,11 @@ CONF = {
                 monitor_only=[("cleanup", 400, 4000)],
                 big=[("big", 40, 600), ("everything", 200, 3000)], enum=True),
     "C02": dict(prefixes=("C02.",), builds=("pure",),
-                model=[("faults", 500, 5000), ("lazyfail", 250, 2500), ("syncfaults", 250, 3000), ("ctxfaults", 200, 2000),
+                model=[("faults", 500, 5000), ("lazyfail", 250, 2500), ("syncfaults", 250, 3000), ("ctxfaults", 200, 2000), ("basefaults", 300, 3000),
                        ("everything", 200, 3000)],
                 big=[("faults", 400, 5000)]),
     "C03": dict(prefixes=("C03.",), builds=("pure",),
-                model=[("plain", 300, 3000), ("dag", 400, 4000), ("spawn", 200, 2000), ("sync", 250, 2500), ("ival", 200, 2000),
+                model=[("plain", 300, 3000), ("dag", 400, 4000), ("spawn", 200, 2000), ("sync", 250, 2500), ("ival", 200, 2000), ("spawnsync", 200, 2000),
                        ("faults", 150, 2000), ("everything", 150, 2000)],
                 big=[("big", 60, 800), ("dag", 300, 3000)], deep=True, liveness=True),
     "C04": dict(prefixes=("C04.",), builds=("pure",),
@@ -51,7 +51,7 @@ CONF = {
                 model=[("override", 500, 5000), ("overridesync", 350, 3500), ("overridefaults", 350, 3500), ("ctx", 150, 1500)],
                 big=[("overridesync", 300, 3000), ("overridefaults", 300, 3000)]),
     "C08": dict(prefixes=("C08.",), builds=("pure",),
-                model=[("session", 400, 4000), ("syncfaults", 200, 2500), ("overflow", 300, 3000), ("overflowbatch", 400, 4000), ("sync", 150, 1500), ("throw", 250, 2500)],
+                model=[("session", 400, 4000), ("syncfaults", 200, 2500), ("overflow", 300, 3000), ("overflowbatch", 400, 4000), ("sync", 150, 1500), ("throw", 250, 2500), ("spawnsync", 300, 3000), ("lazyfail", 150, 1500)],
                 monitor_only=[("sessionfaulty", 400, 4000), ("faultyctx", 250, 2500), ("faultysync", 250, 2500), ("faultyalways", 400, 4000)],
                 big=[("session", 300, 3000)], fresh=True),
     "C12": dict(prefixes=("C12.",), builds=("pure",),
